@@ -63,6 +63,16 @@ def r13_1(prog: Program, rep: Report):
                 f"the family has text-like members ({texty}) but the identity check runs on serdes.load(val): a member whose text parses as JSON/literal (value '1') is replaced before the check and then rejected",
                 detail="identity-first",
             )  # fmt: skip
+            # an Enum family is open to mixins: `class Frame(bytes, Enum)` has members that are bytes, and serdes.decode turns
+            # them into text -- the identity test sees the member itself, not what decoding makes of it
+            open_family = any(_sub(a.cls, "enum.Enum") for a in routed)
+            if open_family:
+                rep.check(
+                    not T.contains(early, lambda s: T.is_call_to(s, f"{C.SERDES}.decode")), "R13.1", key, f.loc,
+                    "the identity check of an enum family runs on the input itself, not on its decoded text",
+                    "the identity check runs on serdes.decode(val): a member of a bytes-mixin enum (class Frame(bytes, Enum)) is decoded to plain text first, is then no instance of the enum, and unmarshal(Frame, Frame.START) raises instead of returning the member",
+                    detail="identity-before-decode",
+                )  # fmt: skip
     return n
 
 
